@@ -451,7 +451,10 @@ func (e *BinaryOpExpr) execInBatch(chunk []KVPair, number bool, ctx *ExecuteCtx)
 					cmp, err = execStringCompare(left, lval, "=")
 				}
 				if err != nil {
-					return nil, err
+					// The elements of a computed list are typed at run time only:
+					// an element of another kind is no member, as in the row executor
+					cmpRet = false
+					break
 				}
 				if cmp {
 					cmpRet = true
